@@ -3,6 +3,7 @@ package main
 import (
 	"fmt"
 	"go/types"
+	"os"
 
 	"golang.org/x/tools/go/ssa"
 )
@@ -80,9 +81,30 @@ func (e *Engine) mapQuantifier(fr *Frame, st *State, args []Value, site ssa.Inst
 	if !isStringType(mt.Key()) {
 		body = Implies(And(present, wfAssumptions(qs, mt.Key(), false)), b)
 	}
+	// the same predicate over the same map in the same (relevant) memory state is the same
+	// fact: bodies equal up to the names of the bound variables share one placeholder, so two
+	// evaluations of spec_xxx_ok(h) agree syntactically
+	canon := map[string]*Term{}
+	for i, q := range qs {
+		canon[q.name] = Var(fmt.Sprintf("qcanon.%d.%d", i, q.sort), q.sort)
+	}
+	cacheKey := fmt.Sprintf("%d", Subst(body, canon).id)
+	if e.mapQuantCache == nil {
+		e.mapQuantCache = map[string]*Term{}
+	}
+	if p, ok := e.mapQuantCache[cacheKey]; ok {
+		if os.Getenv("GOVC_DEBUG_Q") != "" {
+			fmt.Fprintf(os.Stderr, "mapquant reuse %s\n", p.name)
+		}
+		return p
+	}
 	p := FreshVar("Q", BoolSort)
+	if os.Getenv("GOVC_DEBUG_Q") != "" {
+		fmt.Fprintf(os.Stderr, "mapquant new %s key %s\n", p.name, cacheKey)
+	}
 	qi := &quantInfo{forall: true, p: p, q: qs[0], body: body, sk: sks[0], qs: qs, sks: sks}
 	e.quantVars[p.name] = qi
+	e.mapQuantCache[cacheKey] = p
 	return p
 }
 
